@@ -60,6 +60,11 @@ int main(int argc, char** argv) {
     int serde_pct = high ? 0 : serde_arg;                      // no serde of megabyte images
     int nin = high ? (int)g.range(4, NIN) : (int)g.range(2, NIN);
     uint8_t lgmax = (uint8_t)(high ? g.range(hilo, hihi) : g.range(minlgk, maxlgk));
+    // directed "adoption" shape (35 % of the segments, small lg_k so that promotion is cheap): input 0 is an HLL_4 / HLL_6 sketch
+    // STILL IN LIST / SET MODE with lg_k == lg_max_k and is presented first to the empty union (which adopts a copy of it), then
+    // raw items carry the gadget across its promotion to HLL mode, then HLL-mode inputs of each type with lg_k >= lg_max_k follow
+    bool adopt = !high && g.chance(35);
+    if (adopt) { lgmax = (uint8_t)g.range(std::max(4L, minlgk), std::max(minlgk, std::min(maxlgk, 8L))); nin = std::max(nin, 4); }
     long universe = 1L << (g.chance(50) ? 14 : 22);         // small universe: inputs share many items
     std::unique_ptr<hll_sketch> in[NIN];
     // mined collisions (hll_common.hpp Mined): a pair of distinct coupons with the same 26-bit address, planted (0) both into
@@ -79,9 +84,15 @@ int main(int argc, char** argv) {
       if (high) lgk = (uint8_t)(i == 0 ? std::min(21L, (long)lgmax + g.range(1, 2)) : i == 1 ? lgmax : (i == 2 && smaller_here) ? std::max(17L, (long)lgmax - g.range(1, 2)) : g.range(lgmax, 21));
       bool prom = high && promoted && i == 3 && prom_here;
       if (prom) lgk = 17;
+      if (adopt && i <= 3) lgk = (uint8_t)(i == 0 ? lgmax : std::min(maxlgk, (long)lgmax + g.range(0, 2)));
       long k = 1L << lgk;
       int t = T3[g.below(3)];
       bool full = high ? (!prom && !g.chance(15)) : g.chance(10);
+      if (adopt && i == 0) { t = g.chance(50) ? 4 : 6; full = false; }
+      if (adopt && i >= 1 && i <= 3) t = T3[i - 1];
+      // uniform input (lg_k <= 7): exactly one item per slot, all with the same value: every slot of the array holds v
+      bool uniform = !high && !adopt && lgk <= 7 && g.chance(15);
+      if (uniform) { if (g.chance(60)) t = 4; full = g.chance(50); }
       in[i].reset(new hll_sketch(lgk, tt(t), full));
       emit_new(i, *in[i]);
       long n;
@@ -94,19 +105,31 @@ int main(int argc, char** argv) {
         default: n = g.range(3 * k, 10 * k); break;                      // far beyond k
       }
       n = std::min(n, cap);
+      if (adopt && i == 0) n = lgk >= 8 ? g.range(1, 20) : g.range(1, 4);
+      if (adopt && i >= 1 && i <= 3) n = g.range(lgk >= 8 ? 3 * k / 32 + 2 : 9, 3 * k);
       if (high) n = prom ? 3 * k / 32 + g.range(200, 800) : (g.chance(10) ? 0 : g.range(20, 300));
       std::vector<Item> items;
       int steer = g.chance(40) ? (int)g.range(3, 20) : 0;
       for (long j = 0; j < n; j++) items.push_back((steer && g.chance(steer)) ? pool.pick(g, 12) : draw(g, prom ? (1L << 22) : universe));
+      if (uniform) {
+        auto idx = mined.by_slot(lgk, (uint32_t)g.range(1, 3));
+        bool ok = true; for (auto& c : idx) if (c.empty()) ok = false;
+        if (ok) {
+          items.clear();
+          for (auto& c : idx) items.push_back(mined.item(c[g.below(c.size())], g));
+          for (size_t a = items.size(); a > 1; a--) std::swap(items[a - 1], items[g.below(a)]);
+        } else uniform = false;
+      }
       if (high && !items.empty()) {     // addresses with all top bits set: slots >= 2^16 up to the last slots of the array
         static const std::vector<int> ta = mined.top_addr();
         for (int q = 0; q < 6 && !ta.empty(); q++) items.push_back(mined.item(ta[g.below(ta.size())], g));
       }
       {
         std::vector<Item> planted;
-        if ((plan == 0 || plan == 1 || plan == 3) && i == pin_a) planted.push_back(mined.item(mp.first, g));
-        if ((plan == 0 && i == pin_a) || (plan == 1 && i == pin_b)) planted.push_back(mined.item(mp.second, g));
-        if (plan >= 0 && i == pin_b) planted.push_back(mined.item(mc.first, g));
+        if (uniform) planted.clear();
+        else if ((plan == 0 || plan == 1 || plan == 3) && i == pin_a) planted.push_back(mined.item(mp.first, g));
+        if (!uniform && ((plan == 0 && i == pin_a) || (plan == 1 && i == pin_b))) planted.push_back(mined.item(mp.second, g));
+        if (!uniform && plan >= 0 && i == pin_b) planted.push_back(mined.item(mc.first, g));
         // at the front (the input is still a list), in the middle or at the end
         for (auto& pit : planted) { size_t at = g.chance(50) ? 0 : g.below(items.size() + 1); items.insert(items.begin() + at, pit); }
       }
@@ -116,6 +139,7 @@ int main(int argc, char** argv) {
     // raw items offered directly to the unions (the same set for every presentation)
     std::vector<Item> raw;
     { long nr = g.chance(30) ? 0 : (g.chance(70) ? g.range(1, 12) : g.range(12, 300)); for (long j = 0; j < nr; j++) raw.push_back(g.chance(10) ? pool.pick(g, 12) : draw(g, universe)); }
+    if (adopt) { raw.clear(); long nr = g.range(30, 60); for (long j = 0; j < nr; j++) raw.push_back(g.chance(10) ? pool.pick(g, 12) : draw(g, 1L << 22)); }
     if (plan == 2) { raw.push_back(mined.item(mp.first, g)); raw.push_back(mined.item(mp.second, g)); }
     if (plan == 3) raw.push_back(mined.item(mp.second, g));
     if (plan >= 0) raw.push_back(mined.item(mc.second, g));
@@ -156,7 +180,7 @@ int main(int argc, char** argv) {
         restored_of[i] = nrs++;
       }
     }
-    bool with_reset = g.chance(12);
+    bool with_reset = !adopt && g.chance(12);
     std::unique_ptr<hll_union> un[3];
     for (int p = 0; p < 3; p++) {
       un[p].reset(new hll_union(lgmax));
@@ -166,6 +190,13 @@ int main(int argc, char** argv) {
       std::vector<int> order;                   // >= 0: input index, < 0: raw item -(j+1)
       for (int i = 0; i < nin; i++) order.push_back(i);
       for (size_t j = 0; j < raw.size(); j++) order.push_back(-(int)j - 1);
+      if (adopt && p < 2) {
+        // input 0 first; presentation 0: then all raw items, then the HLL-mode inputs; presentation 1: the rest shuffled
+        order.clear(); order.push_back(0);
+        for (size_t j = 0; j < raw.size(); j++) order.push_back(-(int)j - 1);
+        for (int i = 1; i < nin; i++) order.push_back(i);
+        if (p == 1) for (size_t a = order.size(); a > 2; a--) std::swap(order[a - 1], order[1 + g.below(a - 1)]);
+      } else
       if (p > 0 || g.chance(50)) for (size_t a = order.size(); a > 1; a--) std::swap(order[a - 1], order[g.below(a)]);
       long reset_at = with_reset ? (long)g.below(order.size() + 1) : -1;
       int obs_pct = high ? 12 : (raw.size() > 20 ? 8 : 35);
